@@ -198,6 +198,19 @@ def one_path(eng, run, c, fi, nested, self_cls, rep):
     else:
         frame.qualname = fi.qualname
     frame.is_verified_root = True
+    if a.kwarg is not None and nested is None:
+        # **kwargs is a dict created by the call itself: the callee owns it.  Bind the local to a FRESH dict whose
+        # contents are those of the symbolic parameter (clauses keep talking about the parameter = its entry value).
+        pk = params[a.kwarg.arg].t
+        fr = eng.B.new_dict(eng)
+        xi = z3.Int(run.fresh_name("kwi"))
+        xk = z3.Const(run.fresh_name("kwk"), S.Val)
+        fr.length = S.seq_len(S.dict_keys(pk))
+        run.assume(fr.length >= 0)
+        fr.arr = z3.Lambda([xi], S.seq_nth(S.dict_keys(pk), xi))
+        fr.has = z3.Lambda([xk], S.dict_has(pk, xk))
+        fr.get = z3.Lambda([xk], S.dict_get(pk, xk))
+        frame.vars[a.kwarg.arg] = TV(fr.term)
     if fi.cls is not None and nested is None and fi.kind in ("method", "property") and a.args:
         frame.self_val = params[a.args[0].arg]
     # *args / **kwargs are symbolic world containers
